@@ -42,6 +42,10 @@ def main():
         assert rc == 0, o
         rc1, o1 = sh(run_demo, cwd=wt)
         rec["demo_fails_with_change"] = (rc1 != 0)
+        for d in ("examples", "tests"):
+            f = os.path.join(wt, "q_compress", d, demo_name + ".rs")
+            if os.path.exists(f):
+                os.remove(f)   # the demonstration is not part of the existing suite
         rc2, o2 = sh("cargo test --workspace --offline 2>&1 | grep -E '^test result|FAILED|failed' ", cwd=wt)
         rec["existing_tests_output"] = o2.strip().split("\n")
         rec["existing_tests_pass"] = ("FAILED" not in o2 and "failed;" in o2 and all(" 0 failed" in l for l in o2.split("\n") if l.startswith("test result")))
